@@ -193,3 +193,82 @@ func H_C17_close_race() {
 	}
 	vAssert(!vFSExists(dir+"/LOCK"), "lock-released")
 }
+
+func init() {
+	vHarnesses["H_C17_lock3"] = H_C17_lock3
+	vHarnesses["H_C17_close_busy"] = H_C17_close_busy
+}
+
+// the lock protocol itself (storageProvider, the unit under Open / Close): the owner releases while two
+// other providers try to acquire — three threads, every file-system call a pre-emption point: at most one
+// of the two acquires succeeds, and whoever owns the directory at the end has the LOCK file
+func H_C17_lock3() {
+	dir := vTempDir()
+	owner, err := newStorageProvider(dir)
+	vAssert(err == nil, "open-ok")
+	a := &storageProvider{baseDir: dir}
+	b := &storageProvider{baseDir: dir}
+	var ea, eb, er error
+	done := make(chan int, 3)
+	vSchedFork(true)
+	vPreempt(4)
+	vFSSched(1)
+	go func() { er = owner.releaseLock(); done <- 0 }()
+	go func() { ea = a.acquireLock(); done <- 1 }()
+	go func() { eb = b.acquireLock(); done <- 2 }()
+	<-done
+	<-done
+	<-done
+	vPreempt(0)
+	vFSSched(0)
+	vSchedFork(false)
+	vAssert(er == nil, "release-ok")
+	vAssert(!(ea == nil && eb == nil), "at-most-one-owner")
+	if ea == nil || eb == nil {
+		vAssert(vFSExists(dir+"/LOCK"), "owner-holds-the-lock-file")
+		vCover("one-acquired")
+	} else {
+		vAssert(!vFSExists(dir+"/LOCK"), "failed-acquire-leaves-no-lock")
+		vCover("both-refused")
+	}
+}
+
+// Close while the store is busy: a compaction due or in flight (two segments, threshold 2) or an Add that
+// has passed its closed-check with a flush request pending (flush threshold one byte): Close succeeds, no
+// panic, no deadlock — and afterwards every operation on the old handle fails cleanly, a second Close included
+func H_C17_close_busy() {
+	dir := vTempDir()
+	cfg := vStoreCfg(dir)
+	cfg.CompactionThreshold = 2
+	busy := vChoose("busy_with", 2)
+	if busy == 1 {
+		cfg.FlushThreshold = 1
+	}
+	s, err := OpenPersistentHybridIndex(cfg)
+	vAssert(err == nil, "open-ok")
+	var e1, e2 error
+	if busy == 0 {
+		for i := 0; i < 2; i++ {
+			vAssert(s.AddWithID(uint32(11+i), []float32{float32(i)}, "fox", nil) == nil, "add-ok")
+			vAssert(s.Flush() == nil, "flush-ok")
+		}
+		vPar(1, func() { e1 = s.Close() }, func() { s.TriggerCompaction() })
+		vTag("compaction")
+	} else {
+		vPar(1, func() { e1 = s.Close() }, func() { e2 = s.AddWithID(11, []float32{1}, "fox", nil) })
+		vTag("add-with-flush-request")
+	}
+	_ = e2
+	vAssert(e1 == nil, "close-ok")
+	vAssert(!vFSExists(dir+"/LOCK"), "close-releases-the-lock")
+	before := vFSList()
+	vAssert(s.Close() != nil, "second-close-reports-an-error")
+	vClosedHandleFails(s)
+	vAssert(vFSList() == before, "use-after-close-changes-nothing")
+	s3, err3 := OpenPersistentHybridIndex(vStoreCfg(dir))
+	vAssert(err3 == nil, "next-open-succeeds")
+	if err3 == nil {
+		s3.Close()
+	}
+	vCover("ran")
+}
